@@ -1,2 +1,15 @@
-"""Source → Lean table extractors. Each returns (file name under Corro/Gen, file text)."""
-ALL = []
+"""Source → Lean table extractors.  Every tools/extract_cNN.py module exposes
+`extract(repo) -> list[(file name under lean/Corro/Gen, file text)]`; they are discovered here."""
+import glob, importlib.util, os
+
+def _load():
+    fns = []
+    here = os.path.dirname(os.path.abspath(__file__))
+    for p in sorted(glob.glob(os.path.join(here, "extract_c[0-9][0-9].py"))):
+        spec = importlib.util.spec_from_file_location(os.path.basename(p)[:-3], p)
+        m = importlib.util.module_from_spec(spec)
+        spec.loader.exec_module(m)
+        fns.append(m.extract)
+    return fns
+
+ALL = _load()
